@@ -1,10 +1,863 @@
-use crate::sim::Finding;
-use serde_json::Value;
+//! purity-sim (C16): the same program text must give the same value, output and error
+//!  (a) in a fresh process, (b) after any history of other evaluations in one process,
+//!  (c) while other evaluations run on other (simulated) threads under a seeded scheduler,
+//!  (d) in a build without optimisation and with debug assertions / overflow checks.
 
-pub fn replay(_sp: &Value, _trace: bool) -> Vec<Finding> {
-    Vec::new()
+use crate::acc::{Acc, Tier, Violation};
+use crate::alloc;
+use crate::gen_program;
+use crate::rng::{mix, Fold, Rng};
+use crate::runner::{self, Outcome, Pending, Plan};
+use crate::sched::{Policy, Sched, Switch};
+use crate::shadow;
+use crate::sim::{Finding, Injected};
+use serde_json::{json, Value};
+use std::collections::{BTreeSet, VecDeque};
+use std::panic::{catch_unwind, AssertUnwindSafe};
+use std::sync::{Arc, Mutex, OnceLock};
+
+pub const TAG: u64 = 0xC16;
+pub const PROPERTY: &str = "C16";
+pub const BUDGET: u64 = 20_000;
+pub const DISCARD: &str = "DISCARD";
+
+pub fn batch_size(tier: Tier) -> usize {
+    match tier {
+        Tier::Quick => 300,
+        Tier::Thorough => 3000,
+    }
 }
 
-pub fn shrink(sp: &Value, _class: &str, _key: &str) -> Value {
-    sp.clone()
+pub fn scenarios(tier: Tier) -> u64 {
+    match tier {
+        Tier::Quick => 3_000,
+        Tier::Thorough => 60_000,
+    }
+}
+
+const PROBES: &[&str] = &[
+    "v0;",
+    "v1 + 1;",
+    "f0();",
+    "[v0, v2];",
+    "p0;",
+    "v3 = 1;",
+    "functie g() { v0 }; g();",
+    "stel x = 1; v0;",
+    "lengte(v1);",
+    "print(\"{}\", v0);",
+];
+
+/// The batch: generated programs over one small shared identifier pool, probe programs that use a
+/// commonly declared name without declaring it, a program with many constants. Programs are made
+/// on demand (every scenario runs in a process of its own and needs only a few of them).
+pub struct Batch {
+    seed: u64,
+    n: usize,
+    cache: Mutex<std::collections::BTreeMap<usize, String>>,
+}
+
+impl Batch {
+    pub fn len(&self) -> usize {
+        self.n
+    }
+    pub fn get(&self, i: usize) -> String {
+        let mut c = self.cache.lock().unwrap();
+        if let Some(s) = c.get(&i) {
+            return s.clone();
+        }
+        let s = make_program(self.seed, i);
+        c.insert(i, s.clone());
+        s
+    }
+}
+
+pub fn batch(seed: u64, tier: Tier) -> &'static Batch {
+    static B: OnceLock<Batch> = OnceLock::new();
+    let b = B.get_or_init(|| Batch { seed, n: batch_size(tier), cache: Mutex::new(Default::default()) });
+    assert!(b.seed == seed && b.n == batch_size(tier), "one batch per process");
+    b
+}
+
+fn make_program(seed: u64, i: usize) -> String {
+    if i % 10 == 9 {
+        PROBES[(i / 10) % PROBES.len()].to_string()
+    } else if i % 50 == 7 {
+        // many constants (a constant pool cached between evaluations would show here)
+        let items: Vec<String> = (0..120)
+            .map(|k| if k % 3 == 0 { format!("\"s{}\"", k + i) } else if k % 3 == 1 { format!("{}.5", k + i) } else { format!("{}", k * 7 + i) })
+            .collect();
+        format!("stel v0 = [{}]; functie f0() {{ v0 }}; f0();", items.join(", "))
+    } else {
+        gen_program::generate(mix(seed, TAG, i as u64), i % 2 == 0, if i % 4 == 1 { 70 } else { 0 }).src
+    }
+}
+
+pub fn plain_digest(src: &str) -> String {
+    let mut plan = Plan::plain();
+    plan.budget = BUDGET;
+    let r = runner::run_eval(src, &plan, 1, true);
+    if r.injected == Injected::Budget {
+        return DISCARD.to_string();
+    }
+    digest_of(&r.outcome, &r.out, &r.injected)
+}
+
+pub fn digest_of(o: &Outcome, out: &str, inj: &Injected) -> String {
+    match inj {
+        Injected::Guard(g) => format!("wild:{} | out={:?}", g, out),
+        _ => format!("{} | out={:?}", o.render(), out),
+    }
+}
+
+fn kind_of_digest(d: &str) -> String {
+    if d.starts_with("ok ") {
+        "ok".into()
+    } else if d.starts_with("err ") {
+        let k = d[4..].split(':').next().unwrap_or("?");
+        format!("err:{}", k)
+    } else if d.starts_with("panic ") {
+        // site without line numbers: file + message start
+        let rest = &d[6..];
+        let file = rest.split(':').next().unwrap_or("?");
+        let msg: String = rest
+            .split('[')
+            .nth(1)
+            .unwrap_or("")
+            .split(']')
+            .next()
+            .unwrap_or("")
+            .chars()
+            .filter(|c| !c.is_ascii_digit() && *c != '-')
+            .take(36)
+            .collect();
+        format!("panic@{}[{}]", file, msg.split_whitespace().collect::<Vec<_>>().join(" "))
+    } else if d.starts_with("wild:") {
+        d.split(' ').next().unwrap_or("wild").to_string()
+    } else {
+        "?".into()
+    }
+}
+
+// ---------------------------------------------------------------------------------------------
+// reference digests (from fresh processes), handed to workers through a file
+
+static REFS: OnceLock<Vec<String>> = OnceLock::new();
+
+pub fn refs(seed: u64, tier: Tier) -> &'static Vec<String> {
+    REFS.get_or_init(|| {
+        if let Ok(p) = std::env::var("NLSIM_REFS") {
+            if let Ok(t) = std::fs::read_to_string(&p) {
+                if let Ok(Value::Array(a)) = serde_json::from_str::<Value>(&t) {
+                    return a.iter().map(|x| x.as_str().unwrap_or("").to_string()).collect();
+                }
+            }
+        }
+        // stand-alone use: compute them here (not a fresh process each; the check never takes this path)
+        let b = batch(seed, tier);
+        (0..b.len()).map(|i| plain_digest(&b.get(i))).collect()
+    })
+}
+
+// ---------------------------------------------------------------------------------------------
+// (b) histories
+
+fn mode_for(rng: &mut Rng) -> u8 {
+    match rng.below(6) {
+        0 => alloc::POISON,
+        1 => alloc::MOVE,
+        _ => alloc::PLAIN,
+    }
+}
+
+pub struct HistoryRun {
+    pub digests: Vec<String>,
+    pub steps: u64,
+    pub log: u64,
+}
+
+pub fn run_history(programs: &[String], modes: &[u8]) -> HistoryRun {
+    let mut digests = Vec::new();
+    let mut steps = 0;
+    let mut log = Fold::new();
+    for (i, src) in programs.iter().enumerate() {
+        let mut plan = Plan::plain();
+        plan.budget = BUDGET;
+        plan.alloc_mode = modes.get(i).cloned().unwrap_or(alloc::PLAIN);
+        let r = runner::run_eval(src, &plan, (i + 1) as u64, true);
+        steps += r.steps;
+        let d = if r.injected == Injected::Budget { DISCARD.to_string() } else { digest_of(&r.outcome, &r.out, &r.injected) };
+        log.u64(r.log_hash);
+        digests.push(d);
+    }
+    HistoryRun { digests, steps, log: log.0 }
+}
+
+fn history_spec(programs: &[String], modes: &[u8], target: usize) -> Value {
+    json!({
+        "engine": "purity-sim",
+        "kind": "purity",
+        "mode": "history",
+        "programs": programs,
+        "alloc_modes": modes.iter().map(|m| alloc::mode_name(*m)).collect::<Vec<_>>(),
+        "target": target,
+    })
+}
+
+fn scenario_history(acc: &mut Acc, seed: u64, index: u64, tier: Tier, rng: &mut Rng) -> u64 {
+    let b = batch(seed, tier);
+    let r = refs(seed, tier);
+    let len = 10 + rng.usize(60);
+    let mut seq: Vec<usize> = Vec::new();
+    for _ in 0..len {
+        if !seq.is_empty() && rng.chance(1, 8) {
+            seq.push(*seq.last().unwrap()); // immediately again
+        } else {
+            seq.push(rng.usize(b.len()));
+        }
+    }
+    let programs: Vec<String> = seq.iter().map(|i| b.get(*i)).collect();
+    let modes: Vec<u8> = (0..len).map(|_| mode_for(rng)).collect();
+    acc.begin(&history_spec(&programs, &modes, 0));
+    let h = run_history(&programs, &modes);
+    acc.count("history_sequences", 1);
+    acc.count("evaluations_in_histories", len as u64);
+    acc.count("sim_steps", h.steps);
+    for (pos, i) in seq.iter().enumerate() {
+        if r[*i] == DISCARD || h.digests[pos] == DISCARD {
+            acc.count("comparisons_skipped_over_budget", 1);
+            continue;
+        }
+        acc.count("comparisons_history", 1);
+        if pos > 0 {
+            let mut f = Fold::new();
+            f.u64(seq[pos - 1] as u64);
+            f.u64(*i as u64);
+            acc.distinct("history_predecessor_pairs", f.0);
+        }
+        if modes[pos] != alloc::PLAIN {
+            acc.count("fault_allocator_mode_non_plain", 1);
+        }
+        if h.digests[pos] != r[*i] {
+            let mut sp = history_spec(&programs[..=pos], &modes[..=pos], pos);
+            let key = format!("{}->{}", kind_of_digest(&r[*i]), kind_of_digest(&h.digests[pos]));
+            sp["expect"] = json!({"class": "history-dependence", "key": key});
+            acc.violation(Violation {
+                property: PROPERTY.into(),
+                class: "history-dependence".into(),
+                key,
+                detail: format!(
+                    "program {} of the batch gives {} in a fresh process but {} as evaluation {} of a history in one process",
+                    i, r[*i], h.digests[pos], pos
+                ),
+                spec: sp,
+                seed,
+                index,
+            });
+            break;
+        }
+    }
+    acc.sample(json!({"history": seq, "alloc_modes": modes.iter().map(|m| alloc::mode_name(*m)).collect::<Vec<_>>()}));
+    h.log
+}
+
+// ---------------------------------------------------------------------------------------------
+// (c) sim-threads
+
+#[derive(Clone)]
+pub struct ThreadsSpec {
+    pub work: Vec<Vec<String>>,
+    pub modes: Vec<Vec<u8>>,
+    pub handoff: Vec<Vec<bool>>,
+    pub policy_seed: u64,
+    pub mean: u64,
+    pub change_points: Option<Vec<u64>>,
+    pub schedule: Option<Vec<Switch>>,
+}
+
+#[derive(Clone, Debug)]
+pub struct EvalRecord {
+    pub tid: usize,
+    pub pos: usize,
+    pub digest: String,
+    pub findings: Vec<Finding>,
+    pub steps: u64,
+    pub switches: u64,
+    pub settled_by: usize,
+}
+
+pub struct ThreadsRun {
+    pub records: Vec<EvalRecord>,
+    pub schedule: Vec<Switch>,
+    pub points: u64,
+    pub log: u64,
+}
+
+struct HandItem {
+    pending: Pending,
+    from: usize,
+    pos: usize,
+    out: String,
+    injected: Injected,
+    findings: Vec<Finding>,
+    steps: u64,
+    switches: u64,
+}
+
+struct Shared {
+    sched: Arc<Sched>,
+    hand: Mutex<Vec<VecDeque<HandItem>>>,
+    records: Mutex<Vec<EvalRecord>>,
+}
+
+fn settle_item(sh: &Shared, it: HandItem, by: usize) {
+    let (text, mut f2) = runner::settle(it.pending);
+    let mut findings = it.findings;
+    findings.append(&mut f2);
+    let digest = digest_of(&Outcome::Ok(text), &it.out, &it.injected);
+    sh.records.lock().unwrap().push(EvalRecord {
+        tid: it.from,
+        pos: it.pos,
+        digest,
+        findings,
+        steps: it.steps,
+        switches: it.switches,
+        settled_by: by,
+    });
+}
+
+fn drain(sh: &Shared, tid: usize) {
+    loop {
+        let it = sh.hand.lock().unwrap()[tid].pop_front();
+        match it {
+            Some(it) => settle_item(sh, it, tid),
+            None => break,
+        }
+    }
+}
+
+pub fn run_threads(spec: &ThreadsSpec) -> ThreadsRun {
+    let t = spec.work.len();
+    let policy = match (&spec.schedule, &spec.change_points) {
+        (Some(s), _) => Policy::Replay { switches: s.clone(), next: 0 },
+        (None, Some(p)) => Policy::ChangePoints { points: p.clone() },
+        (None, None) => Policy::Random { mean: spec.mean.max(1) },
+    };
+    let sched = Arc::new(Sched::new(t, spec.policy_seed, policy));
+    let shared = Arc::new(Shared {
+        sched: sched.clone(),
+        hand: Mutex::new((0..t).map(|_| VecDeque::new()).collect()),
+        records: Mutex::new(Vec::new()),
+    });
+    let mut handles = Vec::new();
+    for tid in 0..t {
+        let sh = shared.clone();
+        let work = spec.work[tid].clone();
+        let modes = spec.modes[tid].clone();
+        let handoff = spec.handoff[tid].clone();
+        let h = std::thread::Builder::new()
+            .stack_size(64 << 20)
+            .spawn(move || {
+                sh.sched.wait_turn(tid);
+                let body = catch_unwind(AssertUnwindSafe(|| {
+                    for (pos, src) in work.iter().enumerate() {
+                        drain(&sh, tid);
+                        sh.sched.maybe_switch(tid);
+                        let eval_id = (tid as u64) * 100_000 + pos as u64 + 1;
+                        let mut plan = Plan::plain();
+                        plan.budget = BUDGET;
+                        plan.check_foreign = true;
+                        plan.alloc_mode = modes[pos];
+                        runner::begin_run(&plan, eval_id, tid, Some(sh.sched.clone()));
+                        alloc::set_mode(plan.alloc_mode);
+                        let r = catch_unwind(AssertUnwindSafe(|| nederlang::eval(src)));
+                        alloc::set_mode(alloc::PLAIN);
+                        let (res, pending) = runner::finish_run_defer(r, eval_id);
+                        match pending {
+                            Some(p) => {
+                                let item = HandItem {
+                                    pending: p,
+                                    from: tid,
+                                    pos,
+                                    out: res.out.clone(),
+                                    injected: res.injected.clone(),
+                                    findings: res.findings.clone(),
+                                    steps: res.steps,
+                                    switches: res.stats.switches,
+                                };
+                                let to = (tid + 1) % sh.hand.lock().unwrap().len();
+                                if handoff[pos] && to != tid {
+                                    sh.hand.lock().unwrap()[to].push_back(item);
+                                } else {
+                                    settle_item(&sh, item, tid);
+                                }
+                            }
+                            None => {
+                                let digest = if res.injected == Injected::Budget { DISCARD.to_string() } else { digest_of(&res.outcome, &res.out, &res.injected) };
+                                sh.records.lock().unwrap().push(EvalRecord {
+                                    tid,
+                                    pos,
+                                    digest,
+                                    findings: res.findings.clone(),
+                                    steps: res.steps,
+                                    switches: res.stats.switches,
+                                    settled_by: tid,
+                                });
+                            }
+                        }
+                    }
+                    drain(&sh, tid);
+                }));
+                let _ = body;
+                sh.sched.finish(tid);
+            })
+            .unwrap();
+        handles.push(h);
+    }
+    for h in handles {
+        let _ = h.join();
+    }
+    // values handed to a thread that had already finished
+    for tid in 0..t {
+        drain(&shared, tid);
+    }
+    {
+        let mut sh = shadow::lock();
+        sh.reset();
+    }
+    alloc::flush_parked();
+    let mut records = shared.records.lock().unwrap().clone();
+    records.sort_by(|a, b| (a.tid, a.pos).cmp(&(b.tid, b.pos)));
+    let schedule = sched.schedule();
+    let mut log = Fold::new();
+    for s in &schedule {
+        log.u64(s.at);
+        log.u64(s.from as u64);
+        log.u64(s.to as u64);
+    }
+    for r in &records {
+        log.str(&r.digest);
+        log.u64(r.settled_by as u64);
+    }
+    ThreadsRun {
+        records,
+        schedule,
+        points: sched.points(),
+        log: log.0,
+    }
+}
+
+fn threads_spec_json(s: &ThreadsSpec, schedule: &[Switch]) -> Value {
+    json!({
+        "engine": "purity-sim",
+        "kind": "purity",
+        "mode": "threads",
+        "threads": s.work.len(),
+        "work": s.work,
+        "alloc_modes": s.modes.iter().map(|v| v.iter().map(|m| alloc::mode_name(*m)).collect::<Vec<_>>()).collect::<Vec<_>>(),
+        "handoff": s.handoff,
+        "policy": {"seed": s.policy_seed, "random_mean": s.mean, "change_points": s.change_points},
+        "schedule": schedule.iter().map(|w| json!([w.at, w.from, w.to])).collect::<Vec<_>>(),
+    })
+}
+
+fn threads_spec_from_json(v: &Value, use_schedule: bool) -> ThreadsSpec {
+    let work: Vec<Vec<String>> = v["work"]
+        .as_array()
+        .map(|a| a.iter().map(|t| t.as_array().map(|p| p.iter().map(|s| s.as_str().unwrap_or("").to_string()).collect()).unwrap_or_default()).collect())
+        .unwrap_or_default();
+    let modes: Vec<Vec<u8>> = work
+        .iter()
+        .enumerate()
+        .map(|(ti, w)| (0..w.len()).map(|pi| alloc::mode_from_name(v["alloc_modes"][ti][pi].as_str().unwrap_or("plain"))).collect())
+        .collect();
+    let handoff: Vec<Vec<bool>> = work
+        .iter()
+        .enumerate()
+        .map(|(ti, w)| (0..w.len()).map(|pi| v["handoff"][ti][pi].as_bool().unwrap_or(false)).collect())
+        .collect();
+    let schedule = if use_schedule {
+        v["schedule"].as_array().map(|a| {
+            a.iter()
+                .map(|w| Switch { at: w[0].as_u64().unwrap_or(0), from: w[1].as_u64().unwrap_or(0) as usize, to: w[2].as_u64().unwrap_or(0) as usize })
+                .collect()
+        })
+    } else {
+        None
+    };
+    ThreadsSpec {
+        work,
+        modes,
+        handoff,
+        policy_seed: v["policy"]["seed"].as_u64().unwrap_or(0),
+        mean: v["policy"]["random_mean"].as_u64().unwrap_or(16),
+        change_points: v["policy"]["change_points"].as_array().map(|a| a.iter().filter_map(|x| x.as_u64()).collect()),
+        schedule,
+    }
+}
+
+const THREAD_CLASSES: &[&str] = &[
+    "foreign-access",
+    "foreign-release",
+    "use-after-release",
+    "double-release",
+    "release-unknown",
+    "access-unknown",
+    "result-invalid",
+];
+
+fn scenario_threads(acc: &mut Acc, seed: u64, index: u64, tier: Tier, rng: &mut Rng) -> u64 {
+    let b = batch(seed, tier);
+    let r = refs(seed, tier);
+    let t = match rng.below(4) {
+        0 => 2,
+        1 => 16,
+        _ => 2 + rng.usize(15),
+    };
+    let mut idx: Vec<Vec<usize>> = Vec::new();
+    for _ in 0..t {
+        let n = 2 + rng.usize(7);
+        idx.push((0..n).map(|_| rng.usize(b.len())).collect());
+    }
+    // sometimes all threads evaluate the very same program at the same time
+    if rng.chance(1, 6) {
+        let p = rng.usize(b.len());
+        for w in idx.iter_mut() {
+            w[0] = p;
+        }
+    }
+    let work: Vec<Vec<String>> = idx.iter().map(|w| w.iter().map(|i| b.get(*i)).collect()).collect();
+    let modes: Vec<Vec<u8>> = idx.iter().map(|w| w.iter().map(|_| mode_for(rng)).collect()).collect();
+    let handoff: Vec<Vec<bool>> = idx.iter().map(|w| w.iter().map(|_| rng.chance(1, 2)).collect()).collect();
+    let mean = 1u64 << (1 + rng.below(8));
+    let change_points = if rng.chance(1, 4) {
+        let d = 1 + rng.below(6);
+        let mut p: Vec<u64> = (0..d).map(|_| rng.below(4000)).collect();
+        p.sort();
+        p.dedup();
+        Some(p)
+    } else {
+        None
+    };
+    let spec = ThreadsSpec {
+        work,
+        modes,
+        handoff,
+        policy_seed: rng.next_u64(),
+        mean,
+        change_points,
+        schedule: None,
+    };
+    acc.begin(&threads_spec_json(&spec, &[]));
+    let run = run_threads(&spec);
+    acc.count("thread_runs", 1);
+    acc.count("sim_threads", t as u64);
+    acc.max("max_sim_threads", t as u64);
+    acc.count("evaluations_in_thread_runs", run.records.len() as u64);
+    acc.count("fault_preemption", run.schedule.len() as u64);
+    acc.count("scheduling_points", run.points);
+    let mut f = Fold::new();
+    for s in &run.schedule {
+        f.u64(s.from as u64 * 64 + s.to as u64);
+    }
+    acc.distinct("schedule_hashes", f.0);
+    if run.schedule.len() > 1 {
+        acc.distinct("nontrivial_cases", run.log);
+    }
+    for rec in &run.records {
+        acc.count("sim_steps", rec.steps);
+        if rec.switches > 0 {
+            acc.count("probe_evaluation_preempted_midway", 1);
+        }
+        if rec.settled_by != rec.tid {
+            acc.count("probe_result_digested_and_released_on_another_thread", 1);
+        }
+        let bi = idx[rec.tid][rec.pos];
+        let mut bad: Option<(String, String, String)> = None;
+        for fnd in &rec.findings {
+            if THREAD_CLASSES.contains(&fnd.class.as_str()) {
+                bad = Some((fnd.class.clone(), fnd.key.clone(), fnd.detail.clone()));
+                break;
+            }
+        }
+        if bad.is_none() && r[bi] != DISCARD && rec.digest != DISCARD {
+            acc.count("comparisons_threads", 1);
+            if rec.digest != r[bi] {
+                bad = Some((
+                    "schedule-dependence".into(),
+                    format!("{}->{}", kind_of_digest(&r[bi]), kind_of_digest(&rec.digest)),
+                    format!(
+                        "program {} of the batch gives {} in a fresh process but {} when evaluated on sim-thread {} (position {}) while {} other threads run",
+                        bi, r[bi], rec.digest, rec.tid, rec.pos, t - 1
+                    ),
+                ));
+            }
+        }
+        if let Some((class, key, detail)) = bad {
+            let mut sp = threads_spec_json(&spec, &run.schedule);
+            sp["target"] = json!([rec.tid, rec.pos]);
+            sp["expect"] = json!({"class": class, "key": key});
+            acc.violation(Violation {
+                property: PROPERTY.into(),
+                class,
+                key,
+                detail,
+                spec: sp,
+                seed,
+                index,
+            });
+            break;
+        }
+    }
+    if index % 16 == 1 {
+        acc.sample(json!({"sim_threads": t, "work": idx, "policy": {"random_mean": mean, "change_points": spec.change_points}, "switches": run.schedule.len(), "first_switches": run.schedule.iter().take(12).map(|w| json!([w.at, w.from, w.to])).collect::<Vec<_>>()}));
+    }
+    run.log
+}
+
+pub fn scenario(acc: &mut Acc, seed: u64, index: u64, tier: Tier) {
+    let s = mix(seed, TAG ^ 0x5555, index);
+    let mut rng = Rng::new(s);
+    let h = if index % 2 == 0 {
+        scenario_history(acc, seed, index, tier, &mut rng)
+    } else {
+        scenario_threads(acc, seed, index, tier, &mut rng)
+    };
+    acc.log(index, h);
+}
+
+// ---------------------------------------------------------------------------------------------
+// fresh-process evaluation of a single program (the reference of every comparison)
+
+pub fn fresh_digest(src: &str) -> Result<String, String> {
+    fresh_digest_with(&std::env::current_exe().map_err(|e| e.to_string())?, src)
+}
+
+pub fn fresh_digest_with(exe: &std::path::Path, src: &str) -> Result<String, String> {
+    use std::io::Write;
+    let mut child = std::process::Command::new(exe)
+        .arg("fresh")
+        .stdin(std::process::Stdio::piped())
+        .stdout(std::process::Stdio::piped())
+        .stderr(std::process::Stdio::null())
+        .spawn()
+        .map_err(|e| e.to_string())?;
+    child.stdin.take().unwrap().write_all(src.as_bytes()).map_err(|e| e.to_string())?;
+    let out = child.wait_with_output().map_err(|e| e.to_string())?;
+    let text = String::from_utf8_lossy(&out.stdout).to_string();
+    for l in text.lines() {
+        if let Ok(v) = serde_json::from_str::<Value>(l) {
+            if let Some(d) = v["digest"].as_str() {
+                return Ok(d.to_string());
+            }
+        }
+    }
+    Ok(format!("process-died {}", out.status))
+}
+
+/// `nlsim fresh`: program on stdin, digest on stdout
+pub fn fresh_main() -> i32 {
+    use std::io::Read;
+    let mut src = String::new();
+    let _ = std::io::stdin().read_to_string(&mut src);
+    let d = plain_digest(&src);
+    println!("{}", json!({"digest": d}));
+    0
+}
+
+/// `nlsim digests <seed> <tier> <offset> <stride>`: digests of a slice of the batch, one process
+pub fn digests_main(seed: u64, tier: Tier, offset: usize, stride: usize) -> i32 {
+    let b = batch(seed, tier);
+    let mut i = offset;
+    while i < b.len() {
+        let d = plain_digest(&b.get(i));
+        println!("{}", json!({"index": i, "digest": d}));
+        i += stride;
+    }
+    0
+}
+
+pub fn dev_exe() -> std::path::PathBuf {
+    let me = std::env::current_exe().unwrap_or_default();
+    // .../target/release/nlsim -> .../target/debug/nlsim
+    let target = me.parent().and_then(|p| p.parent()).map(|p| p.to_path_buf()).unwrap_or_default();
+    target.join("debug").join("nlsim")
+}
+
+/// Programs known to differ between builds today (DESIGN.md 4.3 items 4, 5): exercised so that they
+/// are reported, each under its own key.
+pub const DIVERGENCE_PROBES: &[&str] = &[
+    "1152921504606846975 + 1",
+    "stel a = 1152921504606846975; a * 2",
+    "stel m = 0 - 1152921504606846975; (m - 1) - 5",
+    "stel b = 3037000500; b * b * 2",
+    "1 + 2 * 3 - 4 / 2 % 3",
+    "stel f = 0.1 + 0.2; [f, f * 3.0, 1.0 / 3.0, float(7) / 0.0, -f]",
+    "functie fac(n) { als n < 2 { antwoord 1; }; n * fac(n - 1) }; fac(20)",
+];
+
+// ---------------------------------------------------------------------------------------------
+// replay + minimisation
+
+pub fn replay(sp: &Value, _trace: bool) -> Vec<Finding> {
+    let mut out = Vec::new();
+    match sp["mode"].as_str() {
+        Some("history") => {
+            let programs: Vec<String> = sp["programs"].as_array().map(|a| a.iter().map(|s| s.as_str().unwrap_or("").to_string()).collect()).unwrap_or_default();
+            let modes: Vec<u8> = (0..programs.len()).map(|i| alloc::mode_from_name(sp["alloc_modes"][i].as_str().unwrap_or("plain"))).collect();
+            let target = sp["target"].as_u64().unwrap_or(0) as usize;
+            if target >= programs.len() {
+                return out;
+            }
+            let fresh = match fresh_digest(&programs[target]) {
+                Ok(d) => d,
+                Err(_) => return out,
+            };
+            let h = run_history(&programs, &modes);
+            if h.digests[target] != fresh && fresh != DISCARD && h.digests[target] != DISCARD {
+                out.push(Finding {
+                    class: "history-dependence".into(),
+                    key: format!("{}->{}", kind_of_digest(&fresh), kind_of_digest(&h.digests[target])),
+                    detail: format!("fresh process: {} ; as evaluation {} of the history: {}", fresh, target, h.digests[target]),
+                });
+            }
+        }
+        Some("threads") => {
+            let spec = threads_spec_from_json(sp, true);
+            let run = run_threads(&spec);
+            let (tt, tp) = (sp["target"][0].as_u64().unwrap_or(0) as usize, sp["target"][1].as_u64().unwrap_or(0) as usize);
+            for rec in &run.records {
+                for f in &rec.findings {
+                    if THREAD_CLASSES.contains(&f.class.as_str()) {
+                        out.push(f.clone());
+                    }
+                }
+                if rec.tid == tt && rec.pos == tp {
+                    if let Ok(fresh) = fresh_digest(&spec.work[tt][tp]) {
+                        if fresh != rec.digest && fresh != DISCARD && rec.digest != DISCARD {
+                            out.push(Finding {
+                                class: "schedule-dependence".into(),
+                                key: format!("{}->{}", kind_of_digest(&fresh), kind_of_digest(&rec.digest)),
+                                detail: format!("fresh process: {} ; on sim-thread {} position {}: {}", fresh, tt, tp, rec.digest),
+                            });
+                        }
+                    }
+                }
+            }
+        }
+        Some("build") => {
+            let src = sp["program"].as_str().unwrap_or("");
+            let rel = fresh_digest(src).unwrap_or_else(|e| format!("? {}", e));
+            let dev = fresh_digest_with(&dev_exe(), src).unwrap_or_else(|e| format!("? {}", e));
+            if rel != dev && rel != DISCARD && dev != DISCARD {
+                out.push(Finding {
+                    class: "build-divergence".into(),
+                    key: format!("dev:{}|release:{}", kind_of_digest(&dev), kind_of_digest(&rel)),
+                    detail: format!("optimised build: {} ; build without optimisation, with debug assertions and overflow checks: {}", rel, dev),
+                });
+            }
+        }
+        _ => {}
+    }
+    out
+}
+
+pub fn build_violation(src: &str, rel: &str, dev: &str, seed: u64, index: u64) -> Violation {
+    let key = format!("dev:{}|release:{}", kind_of_digest(dev), kind_of_digest(rel));
+    Violation {
+        property: PROPERTY.into(),
+        class: "build-divergence".into(),
+        key: key.clone(),
+        detail: format!("optimised build: {} ; build without optimisation, with debug assertions and overflow checks: {}", rel, dev),
+        spec: json!({"engine": "purity-sim", "kind": "purity", "mode": "build", "program": src, "expect": {"class": "build-divergence", "key": key}}),
+        seed,
+        index,
+    }
+}
+
+pub fn shrink(sp: &Value, class: &str, key: &str) -> Value {
+    // every candidate is judged in a process of its own: the code under test may (that is the
+    // violation) keep state from one evaluation to the next, which would pollute in-process retries
+    let tmp = crate::orch::verif_dir().join("replays").join(format!(".shrink-{}.tmp", std::process::id()));
+    let same = |c: &Value| {
+        let body = json!({"property": PROPERTY, "class": class, "key": key, "spec": c});
+        if std::fs::write(&tmp, serde_json::to_string(&body).unwrap()).is_err() {
+            return false;
+        }
+        matches!(crate::orch::confirm_replay(&tmp), Ok(true))
+    };
+    let out = shrink_with(sp, &same);
+    let _ = std::fs::remove_file(&tmp);
+    out
+}
+
+fn shrink_with(sp: &Value, same: &dyn Fn(&Value) -> bool) -> Value {
+    match sp["mode"].as_str() {
+        Some("history") => {
+            // drop evaluations before the target
+            let mut cur = sp.clone();
+            let mut i = 0;
+            let mut tries = 0;
+            while tries < 200 {
+                let n = cur["programs"].as_array().map(|a| a.len()).unwrap_or(0);
+                let target = cur["target"].as_u64().unwrap_or(0) as usize;
+                if i >= target || n <= 1 {
+                    break;
+                }
+                tries += 1;
+                let mut c = cur.clone();
+                c["programs"].as_array_mut().unwrap().remove(i);
+                c["alloc_modes"].as_array_mut().unwrap().remove(i);
+                c["target"] = json!(target - 1);
+                if same(&c) {
+                    cur = c;
+                } else {
+                    i += 1;
+                }
+            }
+            cur
+        }
+        Some("threads") => {
+            // fewer programs per thread (from the end), re-recording the schedule from the policy
+            let mut cur = sp.clone();
+            let t = cur["work"].as_array().map(|a| a.len()).unwrap_or(0);
+            let (tt, tp) = (sp["target"][0].as_u64().unwrap_or(0) as usize, sp["target"][1].as_u64().unwrap_or(0) as usize);
+            let rerecord = |c: &Value| -> Option<Value> {
+                let spec = threads_spec_from_json(c, false);
+                let run = run_threads(&spec);
+                let mut c2 = threads_spec_json(&spec, &run.schedule);
+                c2["target"] = c["target"].clone();
+                c2["expect"] = c["expect"].clone();
+                if same(&c2) {
+                    Some(c2)
+                } else {
+                    None
+                }
+            };
+            let mut tries = 0;
+            for ti in 0..t {
+                loop {
+                    tries += 1;
+                    if tries > 120 {
+                        return cur;
+                    }
+                    let n = cur["work"][ti].as_array().map(|a| a.len()).unwrap_or(0);
+                    let keep = if ti == tt { tp + 1 } else { 1 };
+                    if n <= keep {
+                        break;
+                    }
+                    let mut c = cur.clone();
+                    c["work"][ti].as_array_mut().unwrap().pop();
+                    c["alloc_modes"][ti].as_array_mut().unwrap().pop();
+                    c["handoff"][ti].as_array_mut().unwrap().pop();
+                    match rerecord(&c) {
+                        Some(c2) => cur = c2,
+                        None => break,
+                    }
+                }
+            }
+            cur
+        }
+        _ => sp.clone(),
+    }
 }
